@@ -552,6 +552,10 @@ impl<C: Cfg> World<C> {
         if self.dead() {
             return;
         }
+        if out.iter().any(|x| *x == Some(u32::MAX)) {
+            self.fail(MON_MEM | MON_MODEL | MON_ITER, format!("{}:item-outside-initialised", name), format!("{} with calls \"{}\" handed out an item that is not a live element (uninitialised, moved-out or out-of-range slot): {:?}", name, pat, out));
+            return;
+        }
         if let Some((k, sh, l, rem)) = hint_bad {
             self.fail(MON_ITER | MON_MODEL, format!("{}:size_hint", name), format!("{}: before call {} size_hint() = {:?}, len() = {} but {} items remain", name, k, sh, l, rem));
             return;
@@ -584,10 +588,6 @@ impl<C: Cfg> World<C> {
         }
         if ca == calls.len() {
             state_at_clone = (lo, hi);
-        }
-        if out.iter().any(|x| *x == Some(u32::MAX)) {
-            self.fail(MON_MEM | MON_MODEL | MON_ITER, format!("{}:item-outside-initialised", name), format!("{} with calls \"{}\" handed out an item that is not a live element (uninitialised, moved-out or out-of-range slot): {:?}", name, pat, out));
-            return;
         }
         if out != want {
             self.fail(MON_MODEL | MON_ITER, format!("{}:items", name), format!("{} with calls \"{}\" yielded {:?}, the model gives {:?}", name, pat, out, want));
